@@ -11,6 +11,7 @@ package drive
 // The tuples are given in storage (shard id) order, read back from the table.
 
 import (
+	"errors"
 	"context"
 	"encoding/hex"
 	"encoding/json"
@@ -126,7 +127,10 @@ type expDeps struct {
 	*driver.RegistryDefault
 	calls    *int64
 	pageSize int
+	failAt   int64 // the k-th storage call fails (0: none)
 }
+
+var errExpFault = errors.New("injected storage fault")
 
 type expManager struct {
 	relationtuple.Manager
@@ -134,7 +138,9 @@ type expManager struct {
 }
 
 func (m *expManager) GetRelationTuples(ctx context.Context, q *relationtuple.RelationQuery, o ...x.PaginationOptionSetter) ([]*relationtuple.RelationTuple, string, error) {
-	atomic.AddInt64(m.d.calls, 1)
+	if k := atomic.AddInt64(m.d.calls, 1); m.d.failAt != 0 && k == m.d.failAt {
+		return nil, "", errExpFault
+	}
 	if m.d.pageSize > 0 {
 		o = append(o, x.WithSize(m.d.pageSize))
 	}
@@ -559,6 +565,10 @@ func fromProto(t *rts.SubjectTree) *cnode {
 
 // runEngine runs expand.Engine.BuildTree on the internal subject set.
 func (e *expEnv) runEngine(c *ExpCase) (tree *cnode, calls int64, errs string) {
+	return e.runEngineFault(c, 0)
+}
+
+func (e *expEnv) runEngineFault(c *ExpCase, failAt int64) (tree *cnode, calls int64, errs string) {
 	if err := e.setDepth(c.GDepth); err != nil {
 		return nil, 0, "setup:" + err.Error()
 	}
@@ -568,7 +578,7 @@ func (e *expEnv) runEngine(c *ExpCase) (tree *cnode, calls int64, errs string) {
 	}
 	e.objIdx[root.Object] = c.Subject.Obj
 	var n int64
-	deps := &expDeps{RegistryDefault: e.reg, calls: &n, pageSize: c.PageSize}
+	deps := &expDeps{RegistryDefault: e.reg, calls: &n, pageSize: c.PageSize, failAt: failAt}
 	defer func() {
 		if r := recover(); r != nil {
 			errs = fmt.Sprintf("panic:%v", r)
@@ -993,6 +1003,19 @@ func (e *expEnv) emit(o *Out, c *ExpCase, id string, plain bool, checkLeaves str
 	impl := fmt.Sprintf("tree=%s\tcalls=%d\tleaves=%s", ts, calls, intSet(idsBelow(tree)))
 	if plain {
 		impl += "\tcheckleaves=" + checkLeaves
+	}
+	// the k-th page fetch fails, for every k the expansion reaches (at most 12): the expansion
+	// fails - it never answers with the part of the tree it had read so far
+	if errs == "" && calls >= 1 {
+		for k := int64(1); k <= calls && k <= 12; k++ {
+			ft, _, ferrs := e.runEngineFault(c, k)
+			o.Count("expand-fault-runs")
+			if ferrs == "" {
+				impl += fmt.Sprintf("\tx_fault_swallowed=storage call %d of %d failed and the expansion answered %.200s", k, calls, renderTree(ft))
+				o.Count("expand-fault-swallowed")
+				break
+			}
+		}
 	}
 	agree := 1
 	// the transports use the registry's own engine: the default page size only
